@@ -761,6 +761,7 @@ SAN_PATTERNS = [
     ("index-out-of-bounds", r"runtime error: index -?\d+ out of bounds"),
     ("null-deref", r"runtime error: .*null pointer"),
     ("misaligned", r"runtime error: .*misaligned address"),
+    ("object-size", r"runtime error: .*insufficient space for an object"),
     ("float-cast-overflow", r"runtime error: .* is outside the range of representable values"),
     ("unreachable", r"runtime error: execution reached an unreachable program point"),
     ("ubsan-other", r"runtime error:"),
@@ -895,20 +896,16 @@ def exc_class(e):
     return type(e).__name__
 
 
-def _resync(I):
-    """the Sem driver answered with an unparsable (empty) line: the real answer is the next one"""
+def _restart(I):
+    """the Sem driver died or answered garbage (observed on an overloaded machine: the process is
+    killed while answering): start a fresh one"""
     import common
 
-    for _ in range(4):
-        line = I.drv.p.stdout.readline()
-        if not line:
-            break
-        if line.strip():
-            try:
-                return json.loads(line)
-            except json.JSONDecodeError:
-                continue
-    raise common.InfraError("Sem driver: unparsable answer")
+    try:
+        I.drv.p.kill()
+    except Exception:
+        pass
+    I.drv = common.LeanDriver("Drivers/Sem.lean")
 
 
 def safe_run(I, pj, ins):
@@ -916,24 +913,31 @@ def safe_run(I, pj, ins):
 
     if not ins:
         return []
-    try:
-        return I.run(pj, ins)
-    except json.JSONDecodeError:
-        r = _resync(I)
-        if "results" not in r:
-            raise common.InfraError(f"Sem driver: {str(r)[:200]}")
-        return r["results"]
+    last = None
+    for attempt in range(3):
+        try:
+            return I.run(pj, ins)
+        except (json.JSONDecodeError, common.InfraError, BrokenPipeError, OSError) as e:
+            if isinstance(e, common.InfraError) and "rejected request" in str(e):
+                raise
+            last = e
+            _restart(I)
+    raise common.InfraError(f"Sem driver unusable after restarts: {last}")
 
 
 def safe_gen_inputs(I, pj, cfgs, rng, n, small=False):
+    import common
+
+    last = None
     for attempt in range(3):
         try:
             return I.gen_inputs(pj, cfgs, rng, n, small=small)
-        except json.JSONDecodeError:
-            _resync(I)
-    import common
-
-    raise common.InfraError("Sem driver: unparsable answers")
+        except (json.JSONDecodeError, common.InfraError, BrokenPipeError, OSError) as e:
+            if isinstance(e, common.InfraError) and "rejected request" in str(e):
+                raise
+            last = e
+            _restart(I)
+    raise common.InfraError(f"Sem driver unusable after restarts: {last}")
 
 
 def check_proc(p, I, rng, counts, n_inputs=3, tag="", workdir=None, keep=None, small=False, fixed_inputs=None):
